@@ -214,7 +214,8 @@ inductive Frame
   /-- a data frame: descriptor byte, window descriptor byte (used unless single-segment), the
   bytes of the Frame_Content_Size field as they are to be written, the content in raw blocks -/
   | data (fhd wd : UInt8) (fcsField : Bytes) (blocks : List Bytes) (last : Bytes)
-  | skippable (nibble : UInt8) (payload : Bytes)
+  /-- a skippable frame: first magic byte (`0x50 … 0x5F`), payload -/
+  | skippable (m0 : UInt8) (payload : Bytes)
 
 def Frame.content : Frame → Bytes
   | .data _ _ _ bs l => bs.flatten ++ l
@@ -226,7 +227,7 @@ def Frame.bytes (S : ZSums) : Frame → Bytes
       List.replicate (dictLen fhd) 0 ++ f ++
       (bs.map (rawBlock false)).flatten ++ rawBlock true l ++
       (if fhd &&& 4 ≠ 0 then S.sum (bs.flatten ++ l) else [])
-  | .skippable nib p => [0x50 ||| (nib &&& 15), 0x2A, 0x4D, 0x18] ++ leBytes 4 p.length ++ p
+  | .skippable m0 p => [m0, 0x2A, 0x4D, 0x18] ++ leBytes 4 p.length ++ p
 
 /-! ### XXH64 (seed 0), executable -/
 
